@@ -59,6 +59,10 @@ AK_STRUCTS = [
     ("d2", [3, 0, 4, 1, 4], []), ("d2", [2, 2, 2, 2, 2, 2], []), ("d2", [0, 0, 12], []), ("d2", [5, 0, 0, 7], [1]),
     ("d2", [1, 3, 0, 8], [2, 0]), ("d3", [[2, 0, 1], [4], [], [3, 2]], []), ("d3", [[6], [0, 0], [3, 3]], []),
     ("d1", [12], []),
+    # a fourth entry: flat positions of missing *vectors* inside the lists (option-typed coordinates, what vector.Array makes of
+    # [[{...}, None], ...]): they are neither summed nor counted
+    ("d2", [3, 0, 4, 1, 4], [], [1, 5, 7, 11]), ("d2", [5, 0, 0, 7], [1], [0, 6]), ("d3", [[2, 0, 1], [4], [], [3, 2]], [], [2, 3, 9]),
+    ("d1", [12], [], [0, 4]),
 ]
 
 
@@ -227,11 +231,19 @@ def check_case(cell, case, ctx):
         if sa != opcheck.CART[d] and n >= 2:
             ctx.nontrivial(sample={"shape": shape, "system": cell["sa"], "first_rows": rows[:2]})
     else:
-        kind, counts, nones = AK_STRUCTS[case["struct"]]
+        kind, counts, nones = AK_STRUCTS[case["struct"]][:3]
+        missing = AK_STRUCTS[case["struct"]][3] if len(AK_STRUCTS[case["struct"]]) > 3 else []
+        keep = ~numpy.isin(numpy.arange(len(rows)), missing)
         flat = build.ak_flat(sa, rows, mom, cell["spa"])
+        if missing:
+            flat = ak.zip({f: ak.mask(flat[f], keep) for f in ak.fields(flat)}, with_name=flat.layout.parameter("__record__"),
+                          behavior=flat.behavior)
+            nones = (nones, "missing vectors at", missing)
 
         def shape_plain(vals):
             a = ak.Array(numpy.array(vals))
+            if missing:
+                a = ak.mask(a, keep)
             return struct(a)
 
         def struct(a):
@@ -239,8 +251,8 @@ def check_case(cell, case, ctx):
                 return a
             if kind == "d2":
                 j = ak.unflatten(a, counts)
-                if nones:
-                    j = ak.mask(j, ~numpy.isin(numpy.arange(len(counts)), nones))
+                if AK_STRUCTS[case["struct"]][2]:
+                    j = ak.mask(j, ~numpy.isin(numpy.arange(len(counts)), AK_STRUCTS[case["struct"]][2]))
                 return j
             inner = [c for grp in counts for c in grp]
             outer = [len(grp) for grp in counts]
@@ -253,7 +265,9 @@ def check_case(cell, case, ctx):
         axes = [None] + list(range(depth)) + [-1]
         for ax in axes:
             for kd in (False, True):
-                for mi in (False, True):
+                # (mask_identity=True with lists that hold nothing but missing vectors: Awkward decides about the identity from
+                # the list length, outside the library's reducer; the property says nothing about it)
+                for mi in ((False,) if missing else (False, True)):
                     ctx.evaluation()
                     label = f"ak.sum(structure {kind}{counts} none={nones}, axis={ax}, keepdims={kd}, mask_identity={mi})"
                     try:
